@@ -41,6 +41,7 @@ RULE = (
     "distinct_nontrivial = distinct (callable, parameters, seed, schedule) whose output is non-empty"
 )
 ASSUMPTIONS = [
+    'every result is deep-copied the moment the call returns, before the schedule and the second call run (a callable may hand the same mutable object out twice)',
     "one interpreter process, PYTHONHASHSEED fixed; odd rounds pass the very same argument objects (networks, graphs, dicts, arrays, pos / fixed / center containers) to both "
     "executions and to the interleaved calls of the same callable - only arguments documented as modified in place (uniform_hypergraph_configuration_model's k) are rebuilt; "
     "even rounds rebuild every argument from plain data. A difference seen only with shared objects is keyed <fn>|seed,same-argument-objects|... (two further executions on "
